@@ -6,6 +6,7 @@ import Gtree.Lemmas.SplitSim
 import Gtree.Lemmas.BlockHavoc
 import Gtree.Lemmas.MkOrder
 import Gtree.Lemmas.VerifyOrder
+import Gtree.Lemmas.MkInterleave
 /-
   C10 — massive mode is the simple mode up to the order of roots: the parts that are logic.
   (1) Printer: with the mutex held around the printing of a whole root, the output of every schedule
@@ -323,6 +324,50 @@ theorem C10_verify_verdict_any_order (fs : FS) (target : Bytes) (strict : Bool) 
   · intro e he
     obtain ⟨vs, hvs, hv⟩ := verifyRoots_some fs target strict roots e he
     exact ⟨vs, (hsame vs).mpr hvs, hv⟩
+
+end Gtree
+
+namespace Gtree
+
+/-- the worker of one root runs that root's operations in order (the recursion `makeDirectoriesAndFiles`) -/
+theorem C10_worker_runs_its_operations (f : Fmt) (exts : List Bytes) (ts : List Bytes) (hts : GoodList ts)
+    (t : T) (ht : AllGoodT t) (fs : FS) :
+    mkNodes (key ts) exts fs (growRoot f t) = runE fs (opsTree exts ts t) := by
+  rw [mkNodes_growRoot f exts ts hts t ht fs, mkKids_eq_runE]
+  simp [opsKids]
+
+/-- **C10, "mkdir leaves the same filesystem" — for every schedule of the file-system operations.**
+    The workers of the massive mode run the roots' recursions concurrently, so the `MkdirAll` / `Create`
+    operations of different roots reach the file system interleaved in an order the scheduler chooses.  Under
+    the hypotheses of `C06_exact`, for EVERY interleaving `r` of the roots' operation sequences (each root's
+    operations in its own order, `Interleave`): every operation succeeds, and the file system afterwards is —
+    `lookup` of every path — the one the simple mode leaves.  (`run_char`: whatever the order, the state after a
+    run is a function of the SET of operations executed; the plan's directory keys and file keys are disjoint,
+    no directory key is a file beforehand, every `Create` follows the `MkdirAll` of its parent.) -/
+theorem C10_mkdir_any_interleaving (f : Fmt) (exts : List Bytes) (ts : List Bytes) (roots : List T) (fs : FS)
+    (hts : GoodList ts) (hg : AllGoodL roots) (hd : DistinctL roots) (hc : fs.Closed)
+    (hnf : ∀ i < ts.length, notFile fs (key (ts.take (i + 1))))
+    (hnone : anyRootExists fs (key ts) (roots.map (growRoot f)) = false)
+    (r : List EOp) (hint : Interleave (roots.map (fun t => opsTree exts ts t)) r) :
+    ∃ s, runE fs r = (s, none) ∧
+      ∀ p, s.lookup p = (mkdirRoots fs (key ts) exts (roots.map (growRoot f))).1.lookup p := by
+  have habs := nodes_absent f exts ts roots fs hts hg hc hnone
+  obtain ⟨s, hrun, hsame⟩ := interleave_same exts ts roots fs hts hg hd hnf habs r hint
+  refine ⟨s, hrun, fun p => ?_⟩
+  rw [hsame p]
+  simp only [mkdirRoots, hnone, Bool.false_eq_true, if_false]
+  rw [mkdirRoots_go_forest f exts ts hts roots fs hg]
+
+/-- non-vacuity: the operations of the roots `a` (holding the file `x.go`) and `b`, alternating -/
+example : Interleave ([T.mk [97] [T.mk [120, 46, 103, 111] []], T.mk [98] []].map (fun t => opsTree [[46, 103, 111]] [[116]] t))
+    [EOp.mk [[116], [97]], EOp.mk [[116], [98]], EOp.cr [[116], [97], [120, 46, 103, 111]]] := by
+  have h1 : opsTree [[46, 103, 111]] [[116]] (T.mk [97] [T.mk [120, 46, 103, 111] []]) =
+      [EOp.mk [[116], [97]], EOp.cr [[116], [97], [120, 46, 103, 111]]] := by decide
+  have h2 : opsTree [[46, 103, 111]] [[116]] (T.mk [98] []) = [EOp.mk [[116], [98]]] := by decide
+  simp only [List.map_cons, List.map_nil, h1, h2]
+  exact Interleave.step [] [[EOp.mk [[116], [98]]]] _ _ _
+    (Interleave.step [[EOp.cr [[116], [97], [120, 46, 103, 111]]]] [] [] _ _
+      (Interleave.step [] [[]] [] _ _ (Interleave.done _ (by simp))))
 
 end Gtree
 
